@@ -428,6 +428,11 @@ def _run_optim(case, seed, td):
                                 num_best_decisions=3)
         cal.algorithm = Algorithm(type=algo, generations=2 if algo != "nlopt" else 1, population_size=8, **kw)
         res = pyxel.run_mode(cal, proc.detector, proc.pipeline, with_inherited_coords=True)
+        n_logged = len(LOG)
+        # the simulated outputs attached to the result: one pipeline run per island with that island's champion
+        np.asarray(res["/simulated/pixel"].compute().values)
+        applied = [_vec_of(r, layout) for r in (LOG[n_logged:] if len(LOG) > n_logged else LOG[-isl:])]
+        del LOG[n_logged:]
     except Exception as e:  # noqa: BLE001
         bad("run-raised", f"run raised {type(e).__name__}: {str(e)[:300]}")
         return {"viol": viol, "sig": sig, "nontrivial": False}
@@ -493,6 +498,16 @@ def _run_optim(case, seed, td):
                 bad("reported-not-evaluated", f"/{grp} parameters {p.tolist()} were never applied to the pipeline "
                     f"({len(evals)} logged evaluations)", group=grp)
                 break
+    # the pipeline runs behind /simulated used exactly the reported (last) champion of each island
+    try:
+        cp = res["/champion/parameters"].transpose("island", "evolution", "param_id")
+        champs = sorted([float(x) for x in cp.isel(island=i, evolution=-1).values] for i in range(isl))
+        got_applied = sorted(a for a in applied if a is not None)
+        if len(got_applied) != isl or not all(close(a, c, 1e-11) for a, c in zip(got_applied, champs)):
+            bad("simulated-not-champion", f"the pipeline runs behind /simulated were made with {got_applied}, the reported "
+                f"champions of the {isl} island(s) are {champs}")
+    except Exception as e:  # noqa: BLE001
+        bad("result-missing", f"cannot compare /simulated with /champion: {type(e).__name__}: {e}", group="simulated")
     return {"viol": viol, "sig": sig, "nontrivial": len(evals) > 0, "n": len(evals) + n_checked,
             "counts": {"optim_runs": 1, "logged_evaluations": len(evals), "reported_individuals": n_checked},
             "outcome": {"evaluations": len(evals), "reported": n_checked}}
